@@ -289,21 +289,49 @@ class ModeGen:
 
     def __init__(self, rng, ninc):
         self.rng, self.ninc = rng, ninc
-        self.ids = self.vars = self.macros = 0
+        self.ids = self.vars = self.macros = self.blocks = 0
+        self.exported = []        # macros defined directly in the top-level list of template 0: (name, uses_caller)
+        self.block_names = []
 
-    def body(self, d, in_loop, vv, vm, has_caller, n=None, inc_from=1):
+    @staticmethod
+    def may_fail(b):
+        for st in b:
+            if st[0] == "fail":
+                return True
+            for x in st[1:]:
+                if isinstance(x, list) and ModeGen.may_fail(x):
+                    return True
+        return False
+
+    def body(self, d, in_loop, vv, vm, has_caller, n=None, inc_from=1, top=False, blocks_ok=False, in_macro=False):
         r = self.rng
         vv, vm = list(vv), list(vm)
         out = []
         for _ in range((1 + r.below(4)) if n is None else n):
-            c = r.below(20)
+            c = r.below(24)
+            if c >= 20:
+                # error paths: a statement that fails inside a macro / call block body (often inside an autoescape block),
+                # and the host function `attempt` that swallows the failure of a macro or of caller()
+                if c == 20 and in_macro and d > 0:
+                    out.append(("auto", r.below(5), [("print", self._id()), ("fail",)]) if r.chance(2, 3) else ("fail",))
+                elif c == 21 and vm:
+                    out.append(("attempt", r.choice(vm)[0]))
+                elif c == 22 and has_caller:
+                    out.append(("attemptcaller",))
+                elif c == 23 and blocks_ok and d > 0:
+                    self.blocks += 1
+                    self.block_names.append(self.blocks)
+                    out.append(("block", self.blocks, self.body(d - 1, False, [], [], False, inc_from=inc_from, blocks_ok=True)))
+                else:
+                    out.append(("print", self._id()))
+                continue
             if d <= 0 or c < 5:
                 self.ids += 1
                 out.append(("print", self.ids))
             elif c < 9:
-                out.append(("auto", r.below(5), self.body(d - 1, in_loop, vv, vm, has_caller, inc_from=inc_from)))
+                out.append(("auto", r.below(5), self.body(d - 1, in_loop, vv, vm, has_caller, inc_from=inc_from, blocks_ok=blocks_ok and not in_loop, in_macro=in_macro)))
             elif c < 11:
-                out.append(("loop", 2 + r.below(2), self.body(d - 1, True, vv, vm, has_caller, inc_from=inc_from)))
+                out.append(("loop", 2 + r.below(2), self.body(d - 1, True, vv, vm, has_caller, inc_from=inc_from, in_macro=in_macro)))
             elif c < 13:
                 if in_loop:
                     out.append(("continue" if r.chance(2, 3) else "break", r.below(2)))
@@ -311,27 +339,32 @@ class ModeGen:
                     self.ids += 1
                     out.append(("print", self.ids))
             elif c == 13:
-                out.append(("with", self.body(d - 1, in_loop, vv, vm, has_caller, inc_from=inc_from)))
+                out.append(("with", self.body(d - 1, in_loop, vv, vm, has_caller, inc_from=inc_from, blocks_ok=blocks_ok and not in_loop, in_macro=in_macro)))
             elif c == 14:
                 self.vars += 1
-                out.append(("capture", self.vars, self.body(d - 1, in_loop, vv, vm, has_caller, inc_from=inc_from)))
+                out.append(("capture", self.vars, self.body(d - 1, in_loop, vv, vm, has_caller, inc_from=inc_from, in_macro=in_macro)))
                 vv.append(self.vars)
             elif c == 15 and vv:
                 out.append(("printvar", r.choice(vv)))
             elif c == 16:
                 self.macros += 1
                 uc = r.chance(1, 2)
-                b = self.body(d - 1, False, [], [], uc, inc_from=inc_from)
+                b = self.body(d - 1, False, [], [], uc, inc_from=inc_from, in_macro=True)
                 if uc:
                     b.insert(r.below(len(b) + 1), ("caller",))
                     if r.chance(1, 2):
                         b = [("auto", r.below(5), b)]
                 out.append(("macro", self.macros, b))
-                vm.append((self.macros, uc))
+                vm.append((self.macros, uc, self.may_fail(b)))
+                if top:
+                    self.exported.append((self.macros, uc))
             elif c == 17 and vm:
-                nm, uc = r.choice(vm)
-                if uc:
-                    out.append(("callblock", nm, self.body(d - 1, False, [], [], False, inc_from=inc_from)))
+                nm, uc, mf = r.choice(vm)
+                if mf:
+                    out.append(("attempt", nm))                 # a macro that fails is only called through the host function
+                elif uc:
+                    cb = self.body(d - 1, False, [], [], False, inc_from=inc_from, in_macro=True)
+                    out.append(("callblock", nm, cb) if not self.may_fail(cb) else ("attempt", nm))
                 else:
                     out.append(("callmacro", nm))
             elif c == 18 and has_caller:
@@ -342,6 +375,10 @@ class ModeGen:
                 self.ids += 1
                 out.append(("print", self.ids))
         return out
+
+    def _id(self):
+        self.ids += 1
+        return self.ids
 
 
 def mode_src(b, depth=0):
@@ -361,6 +398,10 @@ def mode_src(b, depth=0):
         elif t == "callblock": out += "{%% call m%d() %%}" % st[1] + mode_src(st[2], depth) + "{% endcall %}"
         elif t == "caller": out += "{{ caller() }}"
         elif t == "include": out += "{% include inc" + str(st[1]) + " %}"
+        elif t == "fail": out += "{{ 1 // 0 }}"
+        elif t == "attempt": out += "{{ attempt(m%d) }}" % st[1]
+        elif t == "attemptcaller": out += "{{ attempt(caller) }}"
+        elif t == "block": out += "{%% block b%d %%}" % st[1] + mode_src(st[2], depth) + "{% endblock %}"
     return out
 
 
@@ -381,11 +422,16 @@ def mode_enc(b):
         elif t == "callblock": out += [10, st[1]] + mode_enc(st[2])
         elif t == "caller": out += [11]
         elif t == "include": out += [12, st[1]]
+        elif t == "fail": out += [13]
+        elif t == "attempt": out += [14, st[1]]
+        elif t == "attemptcaller": out += [15]
+        elif t == "block": out += [16, st[1]] + mode_enc(st[2])
     return out
 
 
-def mode_case(names, bodies):
-    """-> (engine request, model case): template 0 is rendered; includes go through context variables inc<i>"""
+def mode_case(names, bodies, queries=()):
+    """-> (engine request, model case): template 0 is rendered; includes go through context variables inc<i>;
+    queries: calls on the State of the finished render, ("macro", n) / ("block", n)"""
     t = {nm: mode_src(b) for nm, b in zip(names, bodies)}
     ctx = {"x": XVAL}
     for i, nm in enumerate(names):
@@ -393,14 +439,50 @@ def mode_case(names, bodies):
     case = [len(names)]
     for nm, b in zip(names, bodies):
         case += [len(nm)] + [ord(c) for c in nm] + mode_enc(b)
-    return req(t, names[0], ctx), case
+    case += [len(queries)]
+    for kind, nm in queries:
+        case += [1 if kind == "macro" else 2, nm]
+    rq = {"templates": t, "main": names[0], "ctx": ctx, "steps": [{"op": kind, "name": ("m%d" if kind == "macro" else "b%d") % nm} for kind, nm in queries]}
+    return rq, case
+
+
+def split_model(m):
+    """the model's answer: the render, then one result per query -> list of [0, n, chars..] / [1, code] / [8] ..."""
+    out, i = [], 0
+    while i < len(m):
+        if m[i] == 0:
+            n = m[i + 1]; out.append(m[i:i + 2 + n]); i += 2 + n
+        elif m[i] == 1:
+            out.append(m[i:i + 2]); i += 2
+        else:
+            out.append([m[i]]); i += 1
+    return out
+
+
+def engine_results(r):
+    """same shape from the c02 harness response"""
+    def one(x):
+        if "ok" in x:
+            return [0, len(x["ok"])] + [ord(c) for c in x["ok"]]
+        if "err" in x:
+            return [1, x["err"]]
+        return ["crash", json.dumps(x)[:200]]
+    if "render" not in r:
+        return [["crash", json.dumps(r)[:200]]]
+    return [one(r["render"])] + [one(x) for x in r.get("steps", [])]
+
+
+def run_c02(reqs, release=False):
+    env = dict(ENV)
+    env["MJVERIF_WATCHDOG_MS"] = "60000"
+    return run_json([bin_path("c02", release)], reqs, env=env)
 
 
 def mode_variants(b):
     for i in range(len(b)):
         yield b[:i] + b[i + 1:]
     for i, st in enumerate(b):
-        inner = st[2] if st[0] in ("auto", "loop", "capture", "macro", "callblock") else st[1] if st[0] == "with" else None
+        inner = st[2] if st[0] in ("auto", "loop", "capture", "macro", "callblock", "block") else st[1] if st[0] == "with" else None
         if inner is None:
             continue
         if st[0] in ("auto", "with"):
@@ -451,8 +533,11 @@ def main():
                 if "ok" in a[1].get("render", {}) and a[0].get("render") != a[1].get("render"):
                     viol.append(("printing a captured rendering does not reproduce it byte for byte (%s)" % rp.get("via"), rp))
             elif kind == "modes":
-                r = run_prog([req(rp["templates"], rp["main"], rp["context"])], release=rel)[0].get("render", {})
-                if r.get("ok", rp["expected"]) != rp["expected"] or ("err" in r):
+                cargo_build(["c02"], release=rel)
+                got = engine_results(run_c02([{"templates": rp["templates"], "main": rp["main"], "ctx": rp["context"], "steps": rp.get("steps", [])}], release=rel)[0])
+                want = rp["expected"] if isinstance(rp["expected"], list) else [rp["expected"]]
+                got_t = [("".join(chr(c) for c in x[2:]) if x[:1] == [0] else str(x)) for x in got]
+                if got_t != want:
                     viol.append((rp.get("what", "a program of nested autoescape blocks is rendered under the wrong mode"), rp))
             elif kind == "names":
                 r = run_prog([req(rp["templates"], rp["main"], rp["context"])], release=rel)[0].get("render", {})
@@ -681,49 +766,62 @@ def main():
     samples.append({"part": "D", "names": names[:12] + names[len(names) // 2: len(names) // 2 + 6], "scenarios": [c[0] for c in name_cases("x.html", 1)]})
     log('[C02] part D done %.1fs' % (time.time() - chk.t0))
 
-    # ---------------- part E: modes (none / html / json), lexically scoped ----------------
+    # ---------------- part E: modes (none / html / json), lexically scoped; error paths; calls on the State ----------------
+    okc2, clog3 = cargo_build(["c02"], release=False)
+    okr2, clog4 = cargo_build(["c02"], release=True)
+    if not (okc2 and okr2):
+        chk.violation("harness does not build against the current tree", {"theorem_or_correspondence": "build harness/src/bin/c02.rs", "log": (clog3 + clog4)[-1500:]}, True)
+        chk.finish()
     nE = 15000 if chk.thorough else 4000
     ecases = []
     for j in range(nE):
         ninc = rng.below(3)
         g = ModeGen(rng, ninc)
         names = [rng.choice(MAIN_NAMES)] + [INC_NAMES[(j + i) % len(INC_NAMES)] for i in range(ninc)]
-        bodies = [g.body(2 + rng.below(3), False, [], [], False, n=3 + rng.below(4))]
+        bodies = [g.body(2 + rng.below(3), False, [], [], False, n=3 + rng.below(4), top=True, blocks_ok=True)]
         for i in range(1, ninc + 1):
             bodies.append(g.body(1 + rng.below(2), False, [], [], False, inc_from=i + 1))
-        ecases.append((names, bodies))
-    epairs = [mode_case(n_, b_) for n_, b_ in ecases]
-    emodel = run_model("C02", "c02-modes", [c_ for _, c_ in epairs])
+        # calls on the State of the finished render: every exported macro (failing ones included) and every block, twice,
+        # so that every call also happens after failed ones
+        qs = [("macro", nm) for nm, uc in g.exported if not uc] + [("block", nm) for nm in g.block_names]
+        ecases.append((names, bodies, (qs + qs)[:12]))
+    epairs = [mode_case(n_, b_, q_) for n_, b_, q_ in ecases]
+    emodel = [split_model(m_) for m_ in run_model("C02", "c02-modes", [c_ for _, c_ in epairs])]
     mode_bad = []
     for rel in (False, True):
-        eouts = run_prog([r_ for r_, _ in epairs], release=rel)
+        eouts = run_c02([r_ for r_, _ in epairs], release=rel)
         for i, (r, m) in enumerate(zip(eouts, emodel)):
             evaluations += 1
-            e = expect(r)
+            e = engine_results(r)
             if not rel:
-                if m[:1] == [0]:
+                if m and m[0][:1] == [0]:
                     hist["E_model_ok"] += 1
-                    mt = "".join(chr(c) for c in m[2:])
+                    mt = "".join(chr(c) for c in m[0][2:])
                     kinds_seen = set().union(*marker_renderings(mt).values()) if marker_renderings(mt) else set()
                     if len(kinds_seen) >= 2:
                         nontriv.add(("E", i))
                     for k_ in kinds_seen:
                         hist["E_prints_" + k_] += 1
+                    if "n/a" in mt or "n&#x2f;a" in mt:
+                        hist["E_swallowed_failure_in_render"] += 1
+                    hist["E_state_calls"] += len(m) - 1
+                    hist["E_state_calls_failing"] += sum(1 for x in m[1:] if x[:1] == [1])
                 else:
-                    hist["E_model_other_%s" % m[:1]] += 1
-            if e != m and e[:1] != ["crash"]:
+                    hist["E_model_other_%s" % (m[0][:1] if m else "?")] += 1
+            if any(x[:1] == ["crash"] for x in e):
+                crashes_a.append({"template": epairs[i][0]["templates"], "engine": str(e)[:160]})
+            elif e[:1] != m[:1] or (e[0][:1] == [0] and e != m):
                 mode_bad.append((i, rel, e, m))
-            elif e[:1] == ["crash"]:
-                crashes_a.append({"template": epairs[i][0]["templates"], "engine": str(e[1])[:160]})
     seen_e = 0
     for i, rel, e, m in mode_bad[:20]:
         if seen_e >= 3:
             break
-        names, bodies = ecases[i]
+        names, bodies, qs = ecases[i]
+        where = next((j for j in range(min(len(e), len(m))) if e[j] != m[j]), 0)
         def bad_now(bs):
-            rq, cs = mode_case(names, bs)
-            ee = expect(run_prog([rq], release=rel)[0]); mm = run_model("C02", "c02-modes", [cs])[0]
-            return ee != mm and ee[:1] == e[:1] and mm[:1] == m[:1]
+            rq, cs = mode_case(names, bs, qs)
+            ee = engine_results(run_c02([rq], release=rel)[0]); mm = split_model(run_model("C02", "c02-modes", [cs])[0])
+            return len(ee) == len(mm) and len(ee) > where and ee[where] != mm[where] and ee[where][:1] == e[where][:1] and mm[where][:1] == m[where][:1] and ee[:where] == mm[:where]
         cur, progress, budget = list(bodies), True, 200
         while progress and budget > 0:
             progress = False
@@ -741,26 +839,28 @@ def main():
                         pass
                 if progress or budget <= 0:
                     break
-        rq, cs = mode_case(names, cur)
-        ee = expect(run_prog([rq], release=rel)[0]); mm = run_model("C02", "c02-modes", [cs])[0]
-        et = "".join(chr(c) for c in ee[2:]) if ee[:1] == [0] else str(ee)
-        mt = "".join(chr(c) for c in mm[2:]) if mm[:1] == [0] else str(mm)
-        rp = {"kind": "modes", "templates": rq["templates"], "main": rq["main"], "context": rq["ctx"], "expected": mt, "engine": et,
+        rq, cs = mode_case(names, cur, qs)
+        ee = engine_results(run_c02([rq], release=rel)[0]); mm = split_model(run_model("C02", "c02-modes", [cs])[0])
+        txt = lambda x: "".join(chr(c) for c in x[2:]) if x[:1] == [0] else str(x)
+        w2 = next((j for j in range(min(len(ee), len(mm))) if ee[j] != mm[j]), 0)
+        et, mt = txt(ee[w2]), txt(mm[w2])
+        rp = {"kind": "modes", "templates": rq["templates"], "main": rq["main"], "context": rq["ctx"], "steps": rq["steps"],
+              "expected": [txt(x) for x in mm], "engine": [txt(x) for x in ee], "differs_at": "the render" if w2 == 0 else "call %d on the State (%s)" % (w2, rq["steps"][w2 - 1]),
               "profile": "release" if rel else "debug", "case": cs}
         seen_e += 1
         leak = None
-        if ee[:1] == [0] and mm[:1] == [0]:
+        if ee[w2][:1] == [0] and mm[w2][:1] == [0]:
             er, mr = marker_renderings(et), marker_renderings(mt)
             for pid, forms in mr.items():
                 if forms == {"html"} and (er.get(pid, set()) - {"html"}):
                     leak = pid
                     break
         if leak is not None:
-            rp["what"] = "print [%d:..] stands in an HTML auto-escape context but its data is written %s" % (leak, "/".join(sorted(marker_renderings(et)[leak] - {"html"})))
+            rp["what"] = "print [%d:..] stands in an HTML auto-escape context but its data is written %s (%s)" % (leak, "/".join(sorted(marker_renderings(et)[leak] - {"html"})), rp["differs_at"])
             viol.append((rp["what"], rp))
         else:
-            rp["what"] = "the engine and the mode model (C02/Modes.v) render a program of nested autoescape blocks differently"
-            nfi.append((rp["what"], dict(rp, theorem_or_correspondence="C02/Modes.v run_modes vs engine")))
+            rp["what"] = "the engine and the mode model (C02/Modes.v) disagree on %s" % rp["differs_at"]
+            nfi.append((rp["what"], dict(rp, theorem_or_correspondence="C02/Modes.v run_modes / run_query vs engine")))
     samples.append({"part": "E", "templates": epairs[0][0]["templates"], "main": epairs[0][0]["main"]})
     log('[C02] part E done %.1fs' % (time.time() - chk.t0))
 
